@@ -12,13 +12,17 @@ settled:
   (slots never increase along transition parents, and decrease strictly below a non-block node), both derived
   from `Chain`. No additional well-formedness hypothesis is needed.
 * `search_refines` (and the stronger `search_refines_eq`: the lists are equal, both sides enumerate the nodes in
-  array order): whenever the specification constrains the answer, `PA.search` returns, leaves a related state
-  and answers `Abs.search`. Ingredients: `RefQ2.inSubtreeIdx_eq_anc'` (the subtree test for an arbitrary lookup
+  array order): whenever the specification constrains the answer (the anchor is the first node of its root; with
+  or without options: a search without options answers the heads, the blocks without a child block),
+  `PA.search` returns, leaves a related state and answers `Abs.search`. Ingredients: `RefQ2.inSubtreeIdx_eq_anc'` (the subtree test for an arbitrary lookup
   node), `RefQ2.canon_eq` (head or best descendant = head ⇔ ancestor-or-self of the head, through
-  `RefQ2.bestPath_onpath`), `RefQ2.searchLoop_eq` (the loop as two filters).
+  `RefQ2.bestPath_onpath`), `RefQ2.searchLoop_eq` (the loop as two filters), `RefQ2.hasChildBlock_eq` (the model's
+  list of parent roots of block nodes contains a root iff the specification's `hasChildBlock` holds for it).
 
 Non-vacuity: `q2Ex_hyps` and the examples at the end (a forked array with six nodes on which the walk of
-`CanonAtSlot` runs through block and empty-slot nodes and `Search` finds canonical and non-canonical blocks).
+`CanonAtSlot` runs through block and empty-slot nodes and `Search`, with and without options, finds canonical
+and non-canonical blocks), and `q3Ex_hyps` (the same array before the last empty slot: the head is a block node,
+and `CanonAtSlot` at the slot of the head respects the wanted kind).
 -/
 namespace Zrnt.ForkChoice.RefQ2
 open Zrnt.ForkChoice Spec
@@ -301,7 +305,7 @@ theorem canonAt_post (fc : FC) (a : Abs) (I : FI fc) (hl : LI fc.pa) (r : Ref fc
           obtain ⟨r', I', _, _, hh, _, hix⟩ := hp
           rw [hh]
           simp only
-          by_cases h3 : head.slot ≤ slot
+          by_cases h3 : head.slot < slot
           · rw [if_pos h3, if_pos h3]; exact ⟨r', rfl⟩
           · rw [if_neg h3, if_neg h3]
             obtain ⟨x, hx⟩ := Option.isSome_iff_exists.1 hix
@@ -521,10 +525,16 @@ def optEq (o : Option Nat) (x : Nat) : Bool :=
   | some q => x == q
   | none => true
 
-/-- the filter of `Search` on the model's node: a block node matching the options inside the anchor's subtree -/
-def candB (s : PA) (ai : Nat) (p : Option Root) (sl : Option Nat) (n : Node) : Bool :=
+/-- the option part of the filter of `Search`: with no option at all "no child block" (`hcb` = the root has a child
+block), otherwise the given parent root and/or slot -/
+def optB (p : Option Root) (sl : Option Nat) (hcb : Bool) (parentRoot : Root) (slot : Nat) : Bool :=
+  if p.isNone && sl.isNone then !hcb else optEq p parentRoot && optEq sl slot
+
+/-- the filter of `Search` on the model's node: a block node matching the options (with no option: a block whose
+root is not in the list `hcb` of roots with a child block) inside the anchor's subtree -/
+def candB (s : PA) (ai : Nat) (p : Option Root) (sl : Option Nat) (hcb : List Root) (n : Node) : Bool :=
   (n.parentRoot != n.ref.root) &&
-  optEq p n.parentRoot && optEq sl n.ref.slot &&
+  optB p sl (hcb.contains n.ref.root) n.parentRoot n.ref.slot &&
   anc s.nodes ai ((aGet s.indices n.ref).getD 0)
 
 /-- the node is a fork-choice ancestor-or-self of the head -/
@@ -532,19 +542,19 @@ def canonB (s : PA) (hx : Nat) (n : Node) : Bool := anc s.nodes ((aGet s.indices
 
 /-- one iteration of the loop of `Search` -/
 theorem searchLoop_step (s : PA) (h : WF s) (ai hx : Nat) (head : NodeRef) (p : Option Root) (sl : Option Nat)
-    (hopt : (p.isNone && sl.isNone) = false)
+    (hcb : List Root)
     (hsub : ∀ (i : Nat) (n : Node), s.nodes[i]? = some n → s.inSubtreeIdx ai i = some (false, anc s.nodes ai i))
     (hcan : ∀ (i : Nat) (n : Node), s.nodes[i]? = some n → anc s.nodes ai i = true →
       (decide (n.ref = head) || decide (n.bestDesc = some hx)) = anc s.nodes i hx)
     (node : Node) (rest : List Node) (nc c : List NodeRef) (i : Nat) (hnode : s.nodes[i]? = some node) :
-    s.searchLoop ai hx head p sl (node :: rest) nc c =
-      if candB s ai p sl node then
-        (if canonB s hx node then s.searchLoop ai hx head p sl rest nc (c ++ [node.ref])
-         else s.searchLoop ai hx head p sl rest (nc ++ [node.ref]) c)
-      else s.searchLoop ai hx head p sl rest nc c := by
+    s.searchLoop ai hx head p sl hcb (node :: rest) nc c =
+      if candB s ai p sl hcb node then
+        (if canonB s hx node then s.searchLoop ai hx head p sl hcb rest nc (c ++ [node.ref])
+         else s.searchLoop ai hx head p sl hcb rest (nc ++ [node.ref]) c)
+      else s.searchLoop ai hx head p sl hcb rest nc c := by
   have hidx : (aGet s.indices node.ref).getD 0 = i := by rw [h.idx_complete i node hnode]; rfl
-  unfold candB canonB optEq
-  simp only [PA.searchLoop, hopt, Bool.false_eq_true, if_false, hidx, inSubtreeSpins_false s h, hsub i node hnode]
+  unfold candB canonB optB optEq
+  simp only [PA.searchLoop, hidx, inSubtreeSpins_false s h, hsub i node hnode]
   by_cases hr : node.ref.root = node.parentRoot
   · have : (node.parentRoot != node.ref.root) = false := by simp [hr]
     simp only [hr, if_true, bne_self_eq_false, Bool.false_and, Bool.false_eq_true, if_false]
@@ -553,27 +563,27 @@ theorem searchLoop_step (s : PA) (h : WF s) (ai hx : Nat) (head : NodeRef) (p : 
     simp only [hr, if_false, hr', Bool.true_and]
     cases hA : anc s.nodes ai i
     · rcases p with _ | q <;> rcases sl with _ | t
-      · simp at hopt
+      · cases hcb.contains node.ref.root <;> simp
       · by_cases e2 : node.ref.slot = t <;> simp [e2]
       · by_cases e1 : node.parentRoot = q <;> simp [e1]
       · by_cases e1 : node.parentRoot = q <;> by_cases e2 : node.ref.slot = t <;> simp [e1, e2]
     · rw [hcan i node hnode hA]
       rcases p with _ | q <;> rcases sl with _ | t
-      · simp at hopt
+      · cases hcb.contains node.ref.root <;> simp
       · by_cases e2 : node.ref.slot = t <;> simp [e2]
       · by_cases e1 : node.parentRoot = q <;> simp [e1]
       · by_cases e1 : node.parentRoot = q <;> by_cases e2 : node.ref.slot = t <;> simp [e1, e2]
 
 /-- the loop of `Search` collects, in array order, the candidates that are not / that are ancestors of the head -/
 theorem searchLoop_eq (s : PA) (h : WF s) (ai hx : Nat) (head : NodeRef) (p : Option Root) (sl : Option Nat)
-    (hopt : (p.isNone && sl.isNone) = false)
+    (hcb : List Root)
     (hsub : ∀ (i : Nat) (n : Node), s.nodes[i]? = some n → s.inSubtreeIdx ai i = some (false, anc s.nodes ai i))
     (hcan : ∀ (i : Nat) (n : Node), s.nodes[i]? = some n → anc s.nodes ai i = true →
       (decide (n.ref = head) || decide (n.bestDesc = some hx)) = anc s.nodes i hx) :
     ∀ (l : List Node) (nc c : List NodeRef), (∀ n ∈ l, ∃ i : Nat, s.nodes[i]? = some n) →
-      s.searchLoop ai hx head p sl l nc c =
-        .done (nc ++ (l.filter (fun n => candB s ai p sl n && !canonB s hx n)).map (·.ref))
-              (c ++ (l.filter (fun n => candB s ai p sl n && canonB s hx n)).map (·.ref)) := by
+      s.searchLoop ai hx head p sl hcb l nc c =
+        .done (nc ++ (l.filter (fun n => candB s ai p sl hcb n && !canonB s hx n)).map (·.ref))
+              (c ++ (l.filter (fun n => candB s ai p sl hcb n && canonB s hx n)).map (·.ref)) := by
   intro l
   induction l with
   | nil => intro nc c _; simp [PA.searchLoop]
@@ -581,9 +591,9 @@ theorem searchLoop_eq (s : PA) (h : WF s) (ai hx : Nat) (head : NodeRef) (p : Op
     intro nc c hmem
     obtain ⟨i, hnode⟩ := hmem node (List.mem_cons_self ..)
     have ihr := fun nc c => ih nc c (fun n hn => hmem n (List.mem_cons_of_mem _ hn))
-    rw [searchLoop_step s h ai hx head p sl hopt hsub hcan node rest nc c i hnode]
+    rw [searchLoop_step s h ai hx head p sl hcb hsub hcan node rest nc c i hnode]
     rw [List.filter_cons, List.filter_cons]
-    cases candB s ai p sl node
+    cases candB s ai p sl hcb node
     · simp only [Bool.false_eq_true, if_false, Bool.false_and]
       exact ihr nc c
     · cases canonB s hx node
@@ -593,6 +603,36 @@ theorem searchLoop_eq (s : PA) (h : WF s) (ai hx : Nat) (head : NodeRef) (p : Op
       · simp only [if_true, Bool.not_true, Bool.false_eq_true, if_false, Bool.and_self,
           Bool.and_false, List.map_cons]
         rw [ihr]; simp
+
+/-- the set `hasChildBlock` that `Search` computes: filled only for a search without options -/
+def hcbOf (s : PA) (p : Option Root) (sl : Option Nat) : List Root :=
+  if p.isNone && sl.isNone then (s.nodes.filter (fun n => n.ref.root ≠ n.parentRoot)).map (·.parentRoot) else []
+
+/-- how `Search` turns the end of its loop into its result -/
+def searchOut (s : PA) : PA.LoopRes → POut PA (List NodeRef × List NodeRef)
+  | .oob => .panic
+  | .spin => .spin
+  | .done nc c => .ok s (nc, c)
+
+/-- the model's list of roots with a child block holds the roots for which the specification's `hasChildBlock`
+answers yes -/
+theorem hasChildBlock_eq (ns : List Node) (root : Root) :
+    ∀ l : List Node, (l.map (absNode ns)).any (fun m => m.isBlock && m.parentRoot == root) =
+      ((l.filter (fun n => n.ref.root ≠ n.parentRoot)).map (·.parentRoot)).contains root := by
+  intro l
+  induction l with
+  | nil => rfl
+  | cons x t ih =>
+    rw [List.map_cons, List.any_cons, ih, isBlock_absNode, List.filter_cons]
+    show ((x.parentRoot != x.ref.root) && (x.parentRoot == root) || _) = _
+    by_cases hb : x.ref.root = x.parentRoot
+    · simp [hb]
+    · have hb' : ¬ x.parentRoot = x.ref.root := fun e => hb e.symm
+      simp only [ne_eq, hb, not_false_eq_true, decide_true, if_true, List.map_cons, List.contains_cons]
+      have : (x.parentRoot != x.ref.root) = true := by simp [hb']
+      rw [this, Bool.true_and]
+      congr 1
+      exact Bool.beq_comm
 
 /-! ## `Search`: the specification's lists, read on the model's array -/
 
@@ -626,11 +666,12 @@ def SearchPost (fc : FC) (a : Abs) (ans : Ans) : POut PA (List NodeRef × List N
 
 /-- the filter of the specification's `search` -/
 def candS (a : Abs) (anchor : NodeRef) (p : Option Root) (sl : Option Nat) (n : SNode) : Bool :=
-  n.isBlock && optEq p n.parentRoot && optEq sl n.ref.slot && a.fcAncestorOrSelf anchor a.fuel n.ref
+  n.isBlock && optB p sl (a.hasChildBlock n.ref.root) n.parentRoot n.ref.slot &&
+    a.fcAncestorOrSelf anchor a.fuel n.ref
 
 /-- the specification's `search` once it is known not to answer `any` and a head exists -/
 theorem search_spec (a : Abs) (anchor : NodeRef) (p : Option Root) (sl : Option Nat) (head : NodeRef)
-    (hopt : (p.isNone && sl.isNone) = false) (hh : a.headFrom anchor = some head)
+    (hh : a.headFrom anchor = some head)
     (hfirst : a.firstSlot anchor.root = some anchor.slot) :
     a.search anchor p sl =
       Ans.search
@@ -639,18 +680,14 @@ theorem search_spec (a : Abs) (anchor : NodeRef) (p : Option Root) (sl : Option 
         (((a.nodes.filter (candS a anchor p sl)).filter
           (fun n => a.fcAncestorOrSelf n.ref a.fuel head)).map (·.ref)) := by
   unfold Abs.search
-  rw [hopt, hh]
-  simp only [Bool.false_eq_true, if_false, hfirst, ne_eq, not_true_eq_false]
+  rw [hh]
+  simp only [hfirst, ne_eq, not_true_eq_false, if_false]
   rfl
 
 theorem search_post (fc : FC) (a : Abs) (I : FI fc) (hl : LI fc.pa) (r : Ref fc a)
     (hset : ∀ v ∈ fc.votes, v.cur = v.next) (anchor : NodeRef) (p : Option Root) (sl : Option Nat)
     (hne : a.search anchor p sl ≠ Ans.any) :
     SearchPost fc a (a.search anchor p sl) (fc.pa.search anchor p sl) := by
-  have hopt : (p.isNone && sl.isNone) = false := by
-    cases ho : (p.isNone && sl.isNone) with
-    | false => rfl
-    | true => exact absurd (by unfold Abs.search; rw [ho]; rfl) hne
   have hp := headPost fc a I hl r hset anchor.root anchor.slot
   unfold PA.search
   revert hp
@@ -662,10 +699,12 @@ theorem search_post (fc : FC) (a : Abs) (I : FI fc) (hl : LI fc.pa) (r : Ref fc 
     have hh : a.headFrom anchor = none := hp.2
     refine ⟨hp.1, ?_⟩
     unfold Abs.search
-    rw [hopt, hh]
-    rfl
+    rw [hh]
   | ok s head =>
     intro hp
+    show SearchPost fc a (a.search anchor p sl)
+      (searchOut s (s.searchLoop ((aGet s.indices anchor).getD 0) ((aGet s.indices head).getD 0) head p sl
+        (hcbOf s p sl) s.nodes [] []))
     obtain ⟨r', I', hl', hu', hh, hfh, hix⟩ := hp
     have hh' : a.headFrom anchor = some head := hh
     have hfirst : a.firstSlot anchor.root = some anchor.slot := by
@@ -673,8 +712,7 @@ theorem search_post (fc : FC) (a : Abs) (I : FI fc) (hl : LI fc.pa) (r : Ref fc 
       | true => exact of_decide_eq_true hd
       | false =>
         have hd' := of_decide_eq_false hd
-        exact absurd (by unfold Abs.search; rw [hopt, hh']; simp only [Bool.false_eq_true, if_false, ne_eq, hd',
-          not_false_eq_true, if_true]) hne
+        exact absurd (by unfold Abs.search; rw [hh']; simp only [ne_eq, hd', not_false_eq_true, if_true]) hne
     have hw : WF s := I'.wf
     have hc : Chain s := I'.chain
     have hlk : LinksOK s := (hl' hu').1
@@ -702,19 +740,31 @@ theorem search_post (fc : FC) (a : Abs) (I : FI fc) (hl : LI fc.pa) (r : Ref fc 
       fun i n hn hA => canon_eq s hw hlk ai i hx n nb head hn hhx' hnb hheadref hA
     have hmem : ∀ n ∈ s.nodes, ∃ i : Nat, s.nodes[i]? = some n := fun n hn => List.getElem?_of_mem hn
     simp only [hai', hhx, Option.getD_some]
-    rw [searchLoop_eq s hw ai hx head p sl hopt hsub hcan s.nodes [] [] hmem]
+    rw [searchLoop_eq s hw ai hx head p sl (hcbOf s p sl) hsub hcan s.nodes [] [] hmem]
     refine ⟨r', ?_⟩
-    rw [search_spec a anchor p sl head hopt hh' hfirst]
+    rw [search_spec a anchor p sl head hh' hfirst]
     simp only [List.nil_append]
     have hnodes : a.nodes = s.nodes.map (absNode s.nodes) := r'.nodes
+    -- the option part of the filter: with no option the two "has a child block" tests agree
+    have hO : ∀ n : Node, optB p sl (a.hasChildBlock n.ref.root) n.parentRoot n.ref.slot =
+        optB p sl ((hcbOf s p sl).contains n.ref.root) n.parentRoot n.ref.slot := by
+      intro n
+      unfold optB hcbOf
+      cases ho : (p.isNone && sl.isNone) with
+      | false => rfl
+      | true =>
+        simp only [if_true]
+        unfold Abs.hasChildBlock
+        rw [hnodes, hasChildBlock_eq s.nodes n.ref.root s.nodes]
     rw [hnodes]
     -- the two filters of the specification, node by node
-    have hF : ∀ n ∈ s.nodes, candS a anchor p sl (absNode s.nodes n) = candB s ai p sl n := by
+    have hF : ∀ n ∈ s.nodes, candS a anchor p sl (absNode s.nodes n) = candB s ai p sl (hcbOf s p sl) n := by
       intro n hn
       obtain ⟨i, hi⟩ := hmem n hn
       have hidx := hw.idx_complete i n hi
       unfold candS candB
-      rw [absNode_ref, fcAncestorOrSelf_idx (fc := { fc with pa := s }) hw r' hai' hidx, hidx]
+      rw [absNode_ref, fcAncestorOrSelf_idx (fc := { fc with pa := s }) hw r' hai' hidx, hidx,
+        show (absNode s.nodes n).parentRoot = n.parentRoot from rfl, hO n]
       rfl
     have hC : ∀ n ∈ s.nodes,
         a.fcAncestorOrSelf (absNode s.nodes n).ref a.fuel head = canonB s hx n := by
@@ -724,10 +774,10 @@ theorem search_post (fc : FC) (a : Abs) (I : FI fc) (hl : LI fc.pa) (r : Ref fc 
       unfold canonB
       rw [absNode_ref, fcAncestorOrSelf_idx (fc := { fc with pa := s }) hw r' hidx hhx, hidx]
       rfl
-    have e1 := filter_split s.nodes (candS a anchor p sl) (fun n => !a.fcAncestorOrSelf n.ref a.fuel head) (candB s ai p sl)
-      (fun n => !canonB s hx n) s.nodes hF (fun n hn => by simp only [hC n hn])
-    have e2 := filter_split s.nodes (candS a anchor p sl) (fun n => a.fcAncestorOrSelf n.ref a.fuel head) (candB s ai p sl)
-      (canonB s hx) s.nodes hF hC
+    have e1 := filter_split s.nodes (candS a anchor p sl) (fun n => !a.fcAncestorOrSelf n.ref a.fuel head)
+      (candB s ai p sl (hcbOf s p sl)) (fun n => !canonB s hx n) s.nodes hF (fun n hn => by simp only [hC n hn])
+    have e2 := filter_split s.nodes (candS a anchor p sl) (fun n => a.fcAncestorOrSelf n.ref a.fuel head)
+      (candB s ai p sl (hcbOf s p sl)) (canonB s hx) s.nodes hF hC
     rw [e1, e2]
 
 end Zrnt.ForkChoice.RefQ2
@@ -735,8 +785,9 @@ end Zrnt.ForkChoice.RefQ2
 namespace Zrnt.ForkChoice
 open Spec
 
-/-- **`Search` refines `Abs.search`.** Whenever the specification constrains the answer (an option is given and
-the anchor is the first node of its root), the model's `Search` on a settled state satisfying the invariants
+/-- **`Search` refines `Abs.search`.** Whenever the specification constrains the answer (the anchor is the first
+node of its root; options or not: without options the answer is the heads, the blocks without a child block), the
+model's `Search` on a settled state satisfying the invariants
 returns (never panics or loops), leaves a related state, and answers the specification's two lists (here even
 in the same order, both sides enumerate the nodes in array order) or an error on both sides. -/
 theorem search_refines (fc : FC) (a : Abs) (I : FI fc) (hl : LI fc.pa) (r : Ref fc a)
@@ -826,8 +877,10 @@ def q2Res {α : Type} : POut PA α → Option α
 
 /-- both sides of `canonAt_refines` on the instance: the walk stops at the block node `(3,2)` with a block, at
 the empty-slot node `(1,2)` without; slot 1 of the canonical chain has only the empty-slot node `(1,1)` (zero
-reference with a block); a slot beyond the head answers the head; the first slot answers the anchor, which is
-refused without a block because its parent root 7 differs from its root; an unknown root is an error -/
+reference with a block); a slot beyond the head answers the head; at the slot of the head (an empty-slot node
+here) the kind is respected: the head itself without a block, the zero reference with one; the first slot answers
+the anchor, which is refused without a block because its parent root 7 differs from its root; an unknown root is
+an error -/
 example :
     q2FC.pa.nodes.map (·.ref) = [⟨0, 1⟩, ⟨1, 1⟩, ⟨1, 2⟩, ⟨2, 1⟩, ⟨2, 3⟩, ⟨3, 3⟩] ∧
     q2Abs.headFrom ⟨0, 1⟩ = some ⟨3, 3⟩ ∧
@@ -836,6 +889,8 @@ example :
     q2Abs.canonAt 1 1 true = Ans.ref NodeRef.zero ∧ q2Res (q2FC.pa.canonAtSlot 1 1 true) = some NodeRef.zero ∧
     q2Abs.canonAt 1 1 false = Ans.ref ⟨1, 1⟩ ∧ q2Res (q2FC.pa.canonAtSlot 1 1 false) = some ⟨1, 1⟩ ∧
     q2Abs.canonAt 1 9 true = Ans.ref ⟨3, 3⟩ ∧ q2Res (q2FC.pa.canonAtSlot 1 9 true) = some ⟨3, 3⟩ ∧
+    q2Abs.canonAt 1 3 false = Ans.ref ⟨3, 3⟩ ∧ q2Res (q2FC.pa.canonAtSlot 1 3 false) = some ⟨3, 3⟩ ∧
+    q2Abs.canonAt 1 3 true = Ans.ref NodeRef.zero ∧ q2Res (q2FC.pa.canonAtSlot 1 3 true) = some NodeRef.zero ∧
     q2Abs.canonAt 1 0 true = Ans.ref ⟨0, 1⟩ ∧ q2Res (q2FC.pa.canonAtSlot 1 0 true) = some ⟨0, 1⟩ ∧
     q2Abs.canonAt 1 0 false = Ans.err ∧ q2Res (q2FC.pa.canonAtSlot 1 0 false) = none ∧
     q2Abs.canonAt 2 1 false = Ans.err ∧ q2Res (q2FC.pa.canonAtSlot 2 1 false) = none ∧
@@ -875,5 +930,89 @@ example :
     | .err s => Ref { q2FC with pa := s } q2Abs ∧ q2Abs.search ⟨0, 1⟩ (some 1) none = Ans.err
     | _ => False :=
   search_refines q2FC q2Abs q2Ex_fi q2Ex_li q2Ex_ref (fun v hv => (by cases hv)) ⟨0, 1⟩ (some 1) none (by decide)
+
+/-- `Search` WITHOUT options: both sides answer the heads (the blocks without a child block) under the anchor:
+block 2 (not canonical) and block 3 (canonical); the anchor block `(1,0)` itself is left out because blocks 2 and
+3 are its child blocks, block 3 is kept although the empty-slot node `(3,3)` follows it ("if it has only empty
+slots as children, it's a head"); under block 2 only block 2 itself. The specification's answer is not `any`;
+it still is `any` from the anchor `(1,1)`, which is not the first node of its root. -/
+example :
+    q2Abs.search ⟨0, 1⟩ none none = Ans.search [⟨1, 2⟩] [⟨2, 3⟩] ∧
+    q2Res (q2FC.pa.search ⟨0, 1⟩ none none) = some ([⟨1, 2⟩], [⟨2, 3⟩]) ∧
+    q2Abs.search ⟨0, 1⟩ none none ≠ Ans.any ∧
+    q2Abs.hasChildBlock 1 = true ∧ q2Abs.hasChildBlock 2 = false ∧ q2Abs.hasChildBlock 3 = false ∧
+    q2Abs.search ⟨1, 2⟩ none none = Ans.search [] [⟨1, 2⟩] ∧
+    q2Res (q2FC.pa.search ⟨1, 2⟩ none none) = some ([], [⟨1, 2⟩]) ∧
+    q2Abs.search ⟨5, 9⟩ none none = Ans.err ∧ q2Res (q2FC.pa.search ⟨5, 9⟩ none none) = none ∧
+    q2Abs.search ⟨1, 1⟩ none none = Ans.any := by decide
+
+/-- … as the theorem says -/
+example :
+    match q2FC.pa.search ⟨0, 1⟩ none none with
+    | .ok s (nc, c) => Ref { q2FC with pa := s } q2Abs ∧ q2Abs.search ⟨0, 1⟩ none none = Ans.search nc c
+    | .err s => Ref { q2FC with pa := s } q2Abs ∧ q2Abs.search ⟨0, 1⟩ none none = Ans.err
+    | _ => False :=
+  search_refines_eq q2FC q2Abs q2Ex_fi q2Ex_li q2Ex_ref (fun v hv => (by cases hv)) ⟨0, 1⟩ none none (by decide)
+
+/-! ### the head is a block node
+
+`chainEx` itself (`q2PA` before the empty slot 3): nodes `0:(1,0) 1:(1,1) 2:(2,1) 3:(1,2) 4:(3,2)`. The head from
+the anchor is the block node `(3,2)`; at its slot 2 the canonical chain has the pre-block empty-slot node `(1,2)`
+and the block node `(3,2)`. -/
+
+def q3FC : FC :=
+  { pa := chainEx, votes := [], changed := false, spe := 4, balances := [32],
+    pin := some ⟨0, 1⟩, justified := ⟨0, 1⟩, finalized := ⟨0, 1⟩, held := false }
+
+def q3Abs : Abs :=
+  ((((Abs.init 4 1 0 7 ⟨0, 1⟩ ⟨0, 1⟩ .absent [32]).getD default).processBlock 1 2 1 0 0).1.processBlock 1 3 2 0 0).1
+
+theorem q3Ex_ref : Ref q3FC q3Abs :=
+  { spe := rfl, nodes := by decide, votes := rfl, balances := rfl, justified := rfl,
+    finalized := rfl, pin := rfl, sink := by decide, clean := by decide, jE := by decide, fE := by decide,
+    fresh := fun v hv => (by cases hv), next_in := fun v hv => (by cases hv),
+    cur_le := fun v hv => (by cases hv), settled := fun _ v hv => (by cases hv) }
+
+theorem q3Ex_fi : FI q3FC := by
+  refine ⟨chainEx_ok.1, chainEx_ok.2, ?_, ?_⟩
+  · show aGet chainEx.indices NodeRef.zero = none
+    decide
+  · intro i n hn
+    have key : ∀ i ∈ List.range q3FC.pa.nodes.length,
+        (q3FC.pa.nodes[i]?).map (·.weight) = some (wsum q3FC.pa q3FC.votes q3FC.balances i) := by
+      decide
+    have := key i (List.mem_range.2 (List.getElem?_eq_some_iff.1 hn).1)
+    rw [hn] at this
+    exact Option.some.inj this
+
+theorem q3Ex_li : LI q3FC.pa := fun hu => absurd hu (by decide)
+
+/-- the hypotheses of `canonAt_refines` and `search_refines` hold together on this instance too -/
+theorem q3Ex_hyps : FI q3FC ∧ LI q3FC.pa ∧ Ref q3FC q3Abs ∧ (∀ v ∈ q3FC.votes, v.cur = v.next) :=
+  ⟨q3Ex_fi, q3Ex_li, q3Ex_ref, fun v hv => (by cases hv)⟩
+
+/-- `CanonAtSlot` at the slot of the head, the head being the block node `(3,2)`: without a block both sides
+answer the pre-block empty-slot node `(1,2)` (not the head), with a block the head itself; only a slot AFTER the
+head answers the head whatever the kind -/
+example :
+    q3FC.pa.nodes.map (·.ref) = [⟨0, 1⟩, ⟨1, 1⟩, ⟨1, 2⟩, ⟨2, 1⟩, ⟨2, 3⟩] ∧
+    q3Abs.headFrom ⟨0, 1⟩ = some ⟨2, 3⟩ ∧
+    q3Abs.canonAt 1 2 false = Ans.ref ⟨2, 1⟩ ∧ q2Res (q3FC.pa.canonAtSlot 1 2 false) = some ⟨2, 1⟩ ∧
+    q3Abs.canonAt 1 2 true = Ans.ref ⟨2, 3⟩ ∧ q2Res (q3FC.pa.canonAtSlot 1 2 true) = some ⟨2, 3⟩ ∧
+    q3Abs.canonAt 1 3 false = Ans.ref ⟨2, 3⟩ ∧ q2Res (q3FC.pa.canonAtSlot 1 3 false) = some ⟨2, 3⟩ ∧
+    q3Abs.canonAt 1 3 true = Ans.ref ⟨2, 3⟩ ∧ q2Res (q3FC.pa.canonAtSlot 1 3 true) = some ⟨2, 3⟩ := by decide
+
+/-- … as the theorem says -/
+example :
+    match q3FC.pa.canonAtSlot 1 2 false with
+    | .ok s ref => Ref { q3FC with pa := s } q3Abs ∧ q3Abs.canonAt 1 2 false = Ans.ref ref
+    | .err s => Ref { q3FC with pa := s } q3Abs ∧ q3Abs.canonAt 1 2 false = Ans.err
+    | _ => False :=
+  canonAt_refines q3FC q3Abs q3Ex_fi q3Ex_li q3Ex_ref (fun v hv => (by cases hv)) 1 2 false
+
+/-- a search without options on this instance: the same heads, the canonical one being the head itself -/
+example :
+    q3Abs.search ⟨0, 1⟩ none none = Ans.search [⟨1, 2⟩] [⟨2, 3⟩] ∧
+    q2Res (q3FC.pa.search ⟨0, 1⟩ none none) = some ([⟨1, 2⟩], [⟨2, 3⟩]) := by decide
 
 end Zrnt.ForkChoice
